@@ -10,7 +10,7 @@ ids="$@"; [ -z "$ids" ] && ids=$(ls seeded)
 for id in $ids; do
   [ -f seeded/$id/patch.diff ] || continue
   git -C $WT checkout -q -- .
-  if ! git -C $WT apply seeded/$id/patch.diff 2>/dev/null; then echo "$id: patch does not apply to the current main"; continue; fi
+  if ! git -C $WT apply /verif/seeded/$id/patch.diff 2>/dev/null; then echo "$id: patch does not apply to the current main"; continue; fi
   checks=$(python3 -c "import json;m=json.load(open('seeded/$id/meta.json'));print(' '.join(m.get('checks',[m['property']])))")
   res=""
   for c in $checks; do
